@@ -4,6 +4,7 @@ import (
 	"bytes"
 	"encoding/json"
 	"fmt"
+	"sort"
 	"sync"
 	"testing"
 
@@ -318,14 +319,25 @@ func TestC09Race(t *testing.T) {
 	useRecorder(rec)
 	defer func() { t.Log(rec.Summary()) }()
 	rec.Extra("race_detector", raceEnabled)
-	mine := shardTypes(fmTypes(func(mt *MsgType) bool {
-		return mt.Info.Variant == "gv2s" || mt.Info.Variant == "gogos" || mt.Info.Variant == "legacys"
-	}))
+	// every generator flavour (single file / file per message, API v1 / v2, unsafe decoding): the size-cache code
+	// exists once per template
+	mine := shardTypes(fmTypes(nil))
 	if len(mine) == 0 {
 		return
 	}
-	ev.Rapid(t, ev.N(300, 12000), 99, func(rt *rapid.T) {
-		mt := rapid.SampledFrom(mine).Draw(rt, "type")
+	byVariant := map[string][]*MsgType{}
+	var variants []string
+	for _, mt := range mine {
+		if byVariant[mt.Info.Variant] == nil {
+			variants = append(variants, mt.Info.Variant)
+		}
+		byVariant[mt.Info.Variant] = append(byVariant[mt.Info.Variant], mt)
+	}
+	sort.Strings(variants)
+	ev.Rapid(t, ev.N(600, 12000), 99, func(rt *rapid.T) {
+		variant := rapid.SampledFrom(variants).Draw(rt, "variant")
+		mt := rapid.SampledFrom(byVariant[variant]).Draw(rt, "type")
+		rec.Class("variant/" + variant)
 		_, b := canon(genDyn(rt, mt.Desc, 2, genOpts{runtime: mt.Info.Runtime, requiredProb: 10, maxMap: 1}))
 		c := &GCase{Type: mt.Key(), Value: b}
 		n := rapid.SampledFrom([]int{2, 8, 32}).Draw(rt, "goroutines")
